@@ -395,6 +395,7 @@ func goodSession(host string) *sessions.SessionState {
 }
 
 type reqShape struct {
+	Method string // "" = GET
 	Host   string
 	Target string
 	XFP    []string
@@ -426,6 +427,9 @@ func runCase(w *world, sc scenario, rs reqShape, idx int) c.Case {
 	req.Host = rs.Host
 	req.Target = rs.Target
 	req.XFP = rs.XFP
+	if req.Method == "" {
+		req.Method = rs.Method
+	}
 	var released bool
 	if sc.Script.Mode == "hang" {
 		go func(rel chan struct{}) {
@@ -452,8 +456,8 @@ func runCase(w *world, sc scenario, rs reqShape, idx int) c.Case {
 	} else {
 		outcome = fmt.Sprintf("(OForward %s %s %s)", c.List(sc.Cookies), user, sc.Script.coq())
 	}
-	q := fmt.Sprintf("{| q_scheme := %s; q_xfp := %s; q_host := %s; q_path := %s; q_rawquery := %s; q_get := true |}",
-		c.Str(scheme), c.Str(xfp), c.Str(host), c.Str(path), c.Str(rawq))
+	q := fmt.Sprintf("{| q_scheme := %s; q_xfp := %s; q_host := %s; q_path := %s; q_rawquery := %s; q_get := %s |}",
+		c.Str(scheme), c.Str(xfp), c.Str(host), c.Str(path), c.Str(rawq), c.Bool(req.Method == "" || req.Method == "GET" || req.Method == "HEAD"))
 	hdr := http.Header{}
 	if o.Responded {
 		hdr = o.Header
@@ -472,7 +476,7 @@ func runCase(w *world, sc scenario, rs reqShape, idx int) c.Case {
 		}
 	}
 	return c.Case{Coq: coq, JSON: map[string]interface{}{
-		"kind": "proxy", "scenario": sc.Name, "config": w.cfg, "request": map[string]interface{}{"host": rs.Host, "target": rs.Target, "x_forwarded_proto": rs.XFP},
+		"kind": "proxy", "scenario": sc.Name, "config": w.cfg, "request": map[string]interface{}{"method": req.Method, "host": rs.Host, "target": rs.Target, "x_forwarded_proto": rs.XFP},
 		"upstream": sc.Script, "responded": o.Responded, "status": o.Status, "upstream_called": calls > 0,
 		"headers": watched, "set_cookie": ckJSON, "client_trailer": trl, "upstreams_in_deployment": len(w.ups)}}
 }
@@ -491,7 +495,10 @@ var targetPool = []string{
 	"/a:b@c$d&e+f,g=h", "/%25", "/x?q=caf\xc3\xa9", "/oauth2/v1/certs?x=1", "/robots.txt", "/favicon.ico",
 }
 
-var xfpPool = [][]string{nil, nil, {"https"}, {"https"}, {"http"}, {"HTTPS"}, {"https,http"}, {""}, {"http", "https"}, {"https", "http"}}
+// single values, list values in both orders and spacings (a list is not the exact string "https":
+// the code that exists redirects it), blank entries, two header lines (Header.Get reads the first)
+var xfpPool = [][]string{nil, nil, {"https"}, {"https"}, {"http"}, {"HTTPS"}, {"https,http"}, {"https, http"}, {"http,https"},
+	{"http, https"}, {", https"}, {"https,"}, {"https, https"}, {""}, {"http", "https"}, {"https", "http"}, {"httpss"}, {"http, http, https"}}
 
 var protectedLines = []line{
 	{"X-Frame-Options", "ALLOWALL"}, {"x-frame-options", "DENY"}, {"X-FRAME-OPTIONS", ""}, {"X-Frame-Options", "SAMEORIGIN"},
@@ -654,6 +661,7 @@ func genScenario(r *c.Rng, w *world, host string) (scenario, string) {
 }
 
 type shapeSeed struct {
+	Method string
 	Host string
 	XFP  []string
 	Abs  string // "" or a scheme: absolute-form request target (URL.Scheme set, URL.Host wins over Host)
@@ -668,6 +676,9 @@ func genSeed(r *c.Rng, w *world) shapeSeed {
 	if r.Chance(0.04) {
 		ss.Abs = []string{"http", "https", "HTTPS"}[r.Intn(3)]
 	}
+	if r.Chance(0.1) {
+		ss.Method = "POST"
+	}
 	return ss
 }
 
@@ -675,7 +686,7 @@ func (ss shapeSeed) shape(target string) reqShape {
 	if ss.Abs != "" {
 		target = ss.Abs + "://" + ss.Host + target
 	}
-	return reqShape{Host: ss.Host, Target: target, XFP: ss.XFP}
+	return reqShape{Method: ss.Method, Host: ss.Host, Target: target, XFP: ss.XFP}
 }
 
 func genTarget(r *c.Rng) string {
@@ -696,7 +707,9 @@ func callbackOK(w *world, rs reqShape, idx int) (c.Case, bool) {
 	w.backend.set(script{Status: 200})
 	first := doRaw(w.addr, rawReq{Target: "/start", Host: rs.Host, XFP: rs.XFP})
 	if !first.Responded || first.Status != 302 {
-		return c.Case{}, false
+		// the flow cannot be started: judge that response as the sign-in redirect it should have been
+		rs.Target = "/start"
+		return runCase(w, scenario{Name: "no-cookie", Class: "LSignIn", Cookies: []string{ckS(true), ckC(false)}}, rs, idx), true
 	}
 	loc, err := url.Parse(first.Header.Get("Location"))
 	if err != nil {
